@@ -30,7 +30,8 @@ class PostCtx:
         s.kind = "return" if out.kind in ("return", "normal") else out.kind
         s.result = (out.value if out.kind == "return" else NONE_SV) if s.kind == "return" else None
         s.exc = out.value if out.kind == "raise" else None
-        s.env = out.path.env
+        from .stmts import AnchorEnv
+        s.env = AnchorEnv(out.path.env)
         s.yielded = out.path.yielded
         s.ghost = out.path.ghost
 
